@@ -31,6 +31,7 @@ type Source struct {
 	Params     []Ref  `json:"params,omitempty"`
 	HasErr     bool   `json:"err,omitempty"`
 	HasCleanup bool   `json:"cleanup,omitempty"`
+	Variadic   bool   `json:"variadic,omitempty"` // the last parameter (an unnamed slice type) is written ...Elem
 	All        bool   `json:"all,omitempty"`      // wire.Struct(new(S), "*")
 	Concrete   Ref    `json:"concrete,omitempty"` // bind
 	Parent     Ref    `json:"parent,omitempty"`   // field: the struct (Ptr = FieldsOf(new(*S)))
@@ -48,6 +49,7 @@ type Type struct {
 	Kind   string  `json:"kind"`
 	Ptr    bool    `json:"ptr,omitempty"` // func-provided struct handed around as *T
 	Fields []Field `json:"fields,omitempty"`
+	Elem   int     `json:"elem,omitempty"` // kind "uslice" (the unnamed type []Elem): index of the element type
 	Src    Source  `json:"src"`
 	Dead   bool    `json:"dead,omitempty"` // pruned by the minimiser: not rendered
 }
@@ -60,6 +62,8 @@ type Set struct {
 	Members []int  `json:"members"` // type indices whose source lives here
 	Nested  []int  `json:"nested"`  // set ids
 	Parent  int    `json:"parent"`  // -1 = root
+	AliasOf int    `json:"aliasof,omitempty"` // 1+id of the set this variable is just another name for (var A = B); 0 = none
+	Multi   bool   `json:"multi,omitempty"`   // declared together with the next set of the package in one var spec: var A, B = ..., ...
 	Inline  int    `json:"inline,omitempty"` // number of anonymous inline wire.NewSet(...) groups the items are split into
 	Dup     bool   `json:"dup,omitempty"` // malformed on purpose: first member listed twice (multiple bindings); used by no injector
 }
@@ -157,7 +161,7 @@ func RandomKnobs(r *rand.Rand, big bool) Knobs {
 
 var adversarialTypeNames = []string{"Err", "Cleanup", "Select", "Var", "Func", "Type", "Range", "Map", "Chan", "Go", "Defer", "Error", "String", "Int", "Bool", "Nil", "True", "Len", "New", "Wire", "Context", "Arg", "V", "Foo", "Foo2", "Foo_2", "FOO", "Panic", "Import", "Package"}
 
-var adversarialParamNames = []string{"err", "cleanup", "cleanup2", "err2", "arg", "v", "string_", "select_", "t0", "t1", "wire_", "p0", "q0"}
+var adversarialParamNames = []string{"err", "cleanup", "cleanup2", "err2", "arg", "v", "string_", "select_", "t0", "t1", "wire_", "p0", "q_0"}
 
 var anonPool = []string{"embed", "unicode/utf8", "sort", "errors", "strings", "unicode", "math/bits"}
 
@@ -182,7 +186,7 @@ func Generate(r *rand.Rand, k Knobs) *Module {
 		}
 		usedPaths[p.Path] = true
 		if k.Adversary {
-			for _, d := range []string{"err", "cleanup", "v", "arg"} {
+			for _, d := range []string{"err", "errnil", "cleanup", "v", "arg"} {
 				if r.IntN(3) == 0 {
 					p.Decoys = append(p.Decoys, d)
 				}
@@ -214,6 +218,28 @@ func Generate(r *rand.Rand, k Knobs) *Module {
 		t.Kind = weighted(r, Kinds, []int{40, 10, 6, 3, 3, 5, 4, 4, 5, 3, 17})
 		t.Src.Home = -1
 		earlier := m.Types
+		// unnamed slice types []Elem (so that variadic providers have something to take)
+		if r.IntN(12) == 0 {
+			var elems []int
+			for _, e := range earlier {
+				if (e.Kind == "int" || e.Kind == "string" || e.Kind == "struct" && e.Src.Kind != "struct") && e.Pkg <= t.Pkg {
+					dup := false
+					for _, o := range earlier {
+						if o.Kind == "uslice" && o.Elem == e.Idx {
+							dup = true
+						}
+					}
+					if !dup {
+						elems = append(elems, e.Idx)
+					}
+				}
+			}
+			if len(elems) > 0 {
+				t.Kind = "uslice"
+				t.Elem = elems[r.IntN(len(elems))]
+				t.Name = fmt.Sprintf("SliceOf%d", t.Elem)
+			}
+		}
 		var concretes []int // func-provided struct types (can be bound, can be field parents)
 		var parents []int // possible field parents: same package (the parent's package must be able to name the child type)
 		for _, e := range earlier {
@@ -261,6 +287,8 @@ func Generate(r *rand.Rand, k Knobs) *Module {
 			if srcKind == "bind" && len(concretes) == 0 {
 				srcKind = "func"
 			}
+		case "uslice":
+			srcKind = "func"
 		case "func", "chan":
 			srcKind = "func"
 			if len(parents) > 0 && r.IntN(6) == 0 {
@@ -282,6 +310,15 @@ func Generate(r *rand.Rand, k Knobs) *Module {
 				t.Src.Name = "Provide" + t.Name
 			}
 			t.Src.Params = pickParams(k.FanIn)
+			// a parameter of unnamed slice type goes last and may be written variadic
+			for i, pr := range t.Src.Params {
+				if m.Types[pr.Idx].Kind == "uslice" {
+					last := len(t.Src.Params) - 1
+					t.Src.Params[i], t.Src.Params[last] = t.Src.Params[last], t.Src.Params[i]
+					t.Src.Variadic = r.IntN(3) > 0
+					break
+				}
+			}
 			t.Src.HasErr = r.IntN(100) < k.ErrPct
 			t.Src.HasCleanup = r.IntN(100) < k.CleanupPct
 			if t.Kind == "struct" {
@@ -379,6 +416,22 @@ func Generate(r *rand.Rand, k Knobs) *Module {
 				t.Src.Home = h
 				m.Sets[h].Members = append(m.Sets[h].Members, t.Idx)
 			}
+		}
+	}
+	// alias variables (var A = B) and multi-name declarations: only `wire show` / `wire check` see them
+	nsets := len(m.Sets)
+	for i := 0; i < nsets; i++ {
+		s := m.Sets[i]
+		if r.IntN(5) == 0 {
+			// same package as the target: for a cross-package alias wire labels the set with the TARGET's package path and the alias name, a quirk this model does not want to encode
+			pk := s.Pkg
+			m.Sets = append(m.Sets, &Set{ID: len(m.Sets), Pkg: pk, Name: fmt.Sprintf("Alias%dOf%s", len(m.Sets), s.Name), Parent: -1, AliasOf: 1 + s.ID})
+		}
+	}
+	for i := 0; i+1 < nsets; i++ {
+		if m.Sets[i].Pkg == m.Sets[i+1].Pkg && !m.Sets[i].Multi && (i == 0 || !m.Sets[i-1].Multi) && r.IntN(4) == 0 {
+			// the later set may nest the earlier one, never the other way round: both initialisers are independent expressions
+			m.Sets[i].Multi = true
 		}
 	}
 	// injectors
